@@ -1,6 +1,6 @@
 (* Entry points of the C03 model: what the oracle (extracted) and the vm_compute slice evaluate.
    Every result is rendered to a list of character codes inside Coq. No proofs here. *)
-From Cddl Require Import Grammar.PegSyn Grammar.PegRun Grammar.Cfg Grammar.Abnf8610 Generated.CddlPest Grammar.Bridge Grammar.Deviations.
+From Cddl Require Import Grammar.PegSyn Grammar.PegRun Grammar.Cfg Grammar.Abnf8610 Generated.CddlPest Grammar.Bridge Grammar.Deviations Grammar.Tokens.
 Open Scope N_scope.
 
 (* the pair tree of CddlParser::parse(Rule::cddl, text), in the format of harness/src/bin/c03.rs *)
@@ -25,3 +25,6 @@ Definition cddl_shape (w : list N) : list N := shape_of w.
 
 (* derivability in the grammar variant selected by a deviation mask (Deviations.v); mask 0 = the specification *)
 Definition variant_verdict (m : N) (w : list N) : list N := render_verdict (variant_accepts m w).
+
+(* token-class comparison PEG rule vs ABNF rule on all strings up to length n over the class alphabet (Tokens.v) *)
+Definition token_sweep_verdict (k : N) (n : nat) : list N := render_verdict (Some (token_sweep k n)).
